@@ -36,11 +36,12 @@ struct Scenario
     std::vector<int> timeoutMs; // per request, 0 = none
     int D;
     bool fine = false; // requests are issued by gated harness threads that also park at every mutex acquisition
+    int connectFaults = 0; // the first n connection attempts fail at once (network unreachable)
     int warm  = 0;     // the first `warm` requests are issued together and completed (default order) before the
                        // exploration starts: that many keep-alive connections are established and idle
     std::string str() const
     {
-        std::string s = std::string(fine ? "[fine-grained issue] " : "") + (warm ? "[" + std::to_string(warm) + " connections established by earlier requests] " : std::string()) + "threads=" + std::to_string(threads) + " maxConn=" + std::to_string(limit) + " requests=[";
+        std::string s = std::string(fine ? "[fine-grained issue] " : "") + (warm ? "[" + std::to_string(warm) + " connections established by earlier requests] " : std::string()) + (connectFaults ? "[first " + std::to_string(connectFaults) + " connect() fail with ENETUNREACH] " : std::string()) + "threads=" + std::to_string(threads) + " maxConn=" + std::to_string(limit) + " requests=[";
         for (int i = 0; i < n; ++i)
             s += std::string(i ? "," : "") + kBehNames[beh[i]] + (timeoutMs[i] ? "/timeout" + std::to_string(timeoutMs[i]) : "");
         return s + "] D<=" + std::to_string(D);
@@ -299,6 +300,10 @@ static Exec run_one(const Scenario& sc, const std::vector<uint8_t>& prefix, vr::
             if (ng_wait_parked(a, 10000) != 0)
                 throw sim::HarnessError { "client reactor thread did not reach epoll_wait" };
         int issued = 0, ticks = 0;
+        {
+            sim::TsanIgnore ign;
+            sim::S().connect_failures = sc.connectFaults;
+        }
         std::vector<Async::Promise<Http::Response>> promises;
         // joins the issuing threads whatever happens (a harness error must not end in std::terminate)
         struct ThreadBag
@@ -586,7 +591,9 @@ static Exec run_one(const Scenario& sc, const std::vector<uint8_t>& prefix, vr::
             bool serverCloses = false;
             for (int i = 0; i < sc.n; ++i)
                 serverCloses |= sc.beh[i] == B_CLOSE_AFTER || sc.beh[i] == B_RESET_AFTER;
-            if (unsent > inQueue && x.ok && issuerActor.empty() && !serverCloses)
+            // (a request whose connection attempt failed is never settled by pistache - PrintException() is all that
+            // happens -, which the property, speaking of established connections, does not cover: allowed for)
+            if (unsent > inQueue + sc.connectFaults && x.ok && issuerActor.empty() && !serverCloses)
                 ctx.violation("c15:request-handed-to-a-connection-but-never-sent", detail("\"request\":" + std::to_string(firstUnsent) + ",\"unsent\":" + std::to_string(unsent) + ",\"in_client_queue\":" + std::to_string(inQueue)));
         }
         if (srv.peakOpen > sc.limit)
@@ -800,6 +807,21 @@ int main(int argc, char** argv)
                 }
                 gScenarios.push_back(s);
             }
+    // a connection attempt that fails at once, with further requests (needing further connections) issued meanwhile
+    for (int threads : { 1, 2 })
+        for (int n = 2; n <= 3; ++n)
+        {
+            if (!thorough && threads == 2)
+                continue;
+            Scenario s { threads, 2, n, {}, {}, maxD };
+            s.connectFaults = 1;
+            for (int i = 0; i < n; ++i)
+            {
+                s.beh.push_back(B_WHOLE);
+                s.timeoutMs.push_back(0);
+            }
+            gScenarios.push_back(s);
+        }
     // a response that starts in time and then stalls: the time-out covers the whole response, not its first byte
     for (int threads : { 1, 2 })
         for (int limit : { 1, 2 })
